@@ -3,7 +3,9 @@ package props
 import (
 	"crypto/tls"
 	"encoding/base64"
+	"encoding/pem"
 	"fmt"
+	dsig "github.com/russellhaering/goxmldsig"
 	"strings"
 	"testing"
 
@@ -58,22 +60,67 @@ type C09Case struct {
 
 // totality runs every string entry point and reports the first contract breach.
 func totality(sp h.SPConfig, input string) (*h.Violation, []string) {
+	return totalityWith(func() *saml2.SAMLServiceProvider { return sp.Build() }, input)
+}
+
+// c09Variants: number of SP configurations (c09Config 0..7 plus the odd-certificate ones of c09Build).
+const c09Variants = 14
+
+// c09Build builds configuration i: 0..7 as c09Config, 8.. SPs whose OWN certificate is unusable in some way
+// (PEM text instead of DER, garbage, empty, absent) with and without certificate validation — the decoders
+// must still be total.
+func c09Build(i int) *saml2.SAMLServiceProvider {
+	i %= c09Variants
+	if i < 8 {
+		return c09Config(i).Build()
+	}
+	k := h.K("E1")
+	pemBytes := pem.EncodeToMemory(&pem.Block{Type: "CERTIFICATE", Bytes: k.DER["wide"]})
+	sp := h.BaseSP().Build()
+	switch i {
+	case 8: // PEM handed to the setter, validation on
+		sp.ValidateEncryptionCert = true
+		_ = sp.SetSPKeyStore(&saml2.KeyStore{Signer: k.Signer, Cert: pemBytes})
+	case 9: // garbage certificate through the deprecated field, validation on
+		sp.ValidateEncryptionCert = true
+		sp.SPKeyStore = &fixedStore{key: k.RSA, cert: []byte("this is not a certificate")}
+	case 10: // TLS store without any certificate, validation on
+		sp.ValidateEncryptionCert = true
+		sp.SPKeyStore = dsig.TLSCertKeyStore{PrivateKey: k.Signer}
+	case 11: // empty certificate through the setter, validation off, no signature checking
+		sp.SkipSignatureValidation = true
+		_ = sp.SetSPKeyStore(&saml2.KeyStore{Signer: k.Signer, Cert: []byte{}})
+	case 12: // truncated DER, validation on, three-certificate IdP store
+		sp.ValidateEncryptionCert = true
+		sp.IDPCertificateStore = h.Store([]h.CertRef{{Key: "T1", Window: "wide"}, {Key: "T2", Window: "wide"}, {Key: "T3", Window: "wide"}})
+		sp.SPKeyStore = &fixedStore{key: k.RSA, cert: k.DER["wide"][:len(k.DER["wide"])/2]}
+	case 13: // PEM through the field, validation on, no clock
+		sp.ValidateEncryptionCert = true
+		sp.Clock = nil
+		sp.SPKeyStore = dsig.TLSCertKeyStore{Certificate: [][]byte{pemBytes}, PrivateKey: k.Signer}
+	}
+	return sp
+}
+
+// totalityWith runs every string entry point on the service provider(s) newSP supplies (a fresh one per call,
+// or one long-lived instance) and reports the first contract breach.
+func totalityWith(newSP func() *saml2.SAMLServiceProvider, input string) (*h.Violation, []string) {
 	var stages []string
 	type call struct {
 		name string
 		f    func() (bool, error) // (result non-nil, error)
 	}
 	calls := []call{
-		{"ValidateEncodedResponse", func() (bool, error) { r, err := sp.Build().ValidateEncodedResponse(input); return r != nil, err }},
-		{"RetrieveAssertionInfo", func() (bool, error) { r, err := sp.Build().RetrieveAssertionInfo(input); return r != nil, err }},
+		{"ValidateEncodedResponse", func() (bool, error) { r, err := newSP().ValidateEncodedResponse(input); return r != nil, err }},
+		{"RetrieveAssertionInfo", func() (bool, error) { r, err := newSP().RetrieveAssertionInfo(input); return r != nil, err }},
 		{"DecodeUnverifiedBaseResponse", func() (bool, error) { r, err := saml2.DecodeUnverifiedBaseResponse(input); return r != nil, err }},
 		{"DecodeUnverifiedLogoutResponse", func() (bool, error) { r, err := saml2.DecodeUnverifiedLogoutResponse(input); return r != nil, err }},
 		{"ValidateEncodedLogoutRequestPOST", func() (bool, error) {
-			r, err := sp.Build().ValidateEncodedLogoutRequestPOST(input)
+			r, err := newSP().ValidateEncodedLogoutRequestPOST(input)
 			return r != nil, err
 		}},
 		{"ValidateEncodedLogoutResponsePOST", func() (bool, error) {
-			r, err := sp.Build().ValidateEncodedLogoutResponsePOST(input)
+			r, err := newSP().ValidateEncodedLogoutResponsePOST(input)
 			return r != nil, err
 		}},
 	}
@@ -99,8 +146,8 @@ func totality(sp h.SPConfig, input string) (*h.Violation, []string) {
 }
 
 func checkC09(c C09Case) h.Outcome {
-	o := h.Outcome{Classes: []string{"gen:" + c.Kind, fmt.Sprintf("cfg:%d", c.Cfg%8)}}
-	v, stages := totality(c09Config(c.Cfg), c.Input)
+	o := h.Outcome{Classes: []string{"gen:" + c.Kind, fmt.Sprintf("cfg:%d", c.Cfg%c09Variants)}}
+	v, stages := totalityWith(func() *saml2.SAMLServiceProvider { return c09Build(c.Cfg) }, c.Input)
 	o.Classes = append(o.Classes, stages...)
 	o.Violation = v
 	// non-trivial: the input got past base64 and XML parsing
@@ -125,7 +172,7 @@ var hostileConstants = []string{
 }
 
 func genC09Strings(t *rapid.T) C09Case {
-	c := C09Case{Cfg: rapid.IntRange(0, 7).Draw(t, "cfg")}
+	c := C09Case{Cfg: rapid.IntRange(0, c09Variants-1).Draw(t, "cfg")}
 	switch rapid.IntRange(0, 5).Draw(t, "strKind") {
 	case 0:
 		c.Kind, c.Input = "string", rapid.String().Draw(t, "s")
@@ -195,7 +242,7 @@ var c09Bases = func() []string {
 }()
 
 func genC09Mutate(t *rapid.T) C09Case {
-	c := C09Case{Kind: "mutate", Cfg: rapid.IntRange(0, 7).Draw(t, "cfg")}
+	c := C09Case{Kind: "mutate", Cfg: rapid.IntRange(0, c09Variants-1).Draw(t, "cfg")}
 	b := []byte(c09Bases[rapid.IntRange(0, len(c09Bases)-1).Draw(t, "base")])
 	nm := rapid.IntRange(1, 3).Draw(t, "nMut")
 	for i := 0; i < nm && len(b) > 0; i++ {
@@ -230,7 +277,7 @@ func genC09Mutate(t *rapid.T) C09Case {
 // ---- generator 2b: tree-level deletions / blanking on genuine messages (reaches missing-element paths) ----
 
 func genC09Tree(t *rapid.T) C09Case {
-	c := C09Case{Kind: "tree-mutate", Cfg: rapid.IntRange(0, 7).Draw(t, "cfg")}
+	c := C09Case{Kind: "tree-mutate", Cfg: rapid.IntRange(0, c09Variants-1).Draw(t, "cfg")}
 	doc := etree.NewDocument()
 	if err := doc.ReadFromString(c09Bases[rapid.IntRange(0, len(c09Bases)-1).Draw(t, "base")]); err != nil {
 		t.Fatalf("harness: %v", err)
@@ -364,7 +411,7 @@ type C09Cipher struct {
 var dataAlgIDs = append(append([]string{}, h.DataAlgs...), types.MethodTripleDESCBC, "urn:unknown:alg", "")
 
 func genC09Cipher(t *rapid.T) C09Cipher {
-	c := C09Cipher{Cfg: rapid.SampledFrom([]int{1, 2, 3, 6}).Draw(t, "cfg"), Signed: rapid.IntRange(0, 3).Draw(t, "signed") == 0}
+	c := C09Cipher{Cfg: rapid.SampledFrom([]int{1, 2, 3, 6, 1, 2, 3, 6, 8, 9, 12, 13}).Draw(t, "cfg"), Signed: rapid.IntRange(0, 3).Draw(t, "signed") == 0}
 	to := h.CertRef{Key: "E1", Window: "wide"}
 	e := h.EncSpec{To: to, Digest: rapid.SampledFrom(append(h.DigestChoices, "urn:unknown:digest")).Draw(t, "digest")}
 	e.DataAlg = rapid.SampledFrom(dataAlgIDs).Draw(t, "dataAlg")
@@ -516,7 +563,7 @@ func genC09Cipher(t *rapid.T) C09Cipher {
 func checkC09Cipher(c C09Cipher) h.Outcome {
 	o := h.Outcome{NonTrivial: true, Classes: []string{"gen:cipher", "shape:" + c.Shape, "alg:" + shortAlg(c.Enc.DataAlg), "transport:" + shortAlg(c.Enc.Transport),
 		fmt.Sprintf("keylen:%d", len(c.Enc.Key)), fmt.Sprintf("cipherlen:%d", len(c.Enc.RawCipher)), fmt.Sprintf("signed:%v", c.Signed)}}
-	v, stages := totality(c09Config(c.Cfg), c.Input)
+	v, stages := totalityWith(func() *saml2.SAMLServiceProvider { return c09Build(c.Cfg) }, c.Input)
 	o.Classes = append(o.Classes, stages...)
 	if v != nil {
 		o.Violation = v
@@ -583,6 +630,63 @@ func directDecrypt(encoded string) *h.Violation {
 	return nil
 }
 
+// C09Seq: ONE long-lived service provider is handed a sequence of hostile inputs on all entry points; state a
+// failed call leaves behind (caches, half-initialised fields) must not make a later call panic.
+type C09Seq struct {
+	Cfg    int      `json:"cfg"`
+	Inputs []string `json:"inputs"`
+	Kinds  []string `json:"kinds"`
+}
+
+func genC09Seq(t *rapid.T) C09Seq {
+	q := C09Seq{Cfg: rapid.IntRange(0, c09Variants-1).Draw(t, "cfg")}
+	if rapid.Bool().Draw(t, "oddCertConfig") {
+		q.Cfg = rapid.IntRange(8, c09Variants-1).Draw(t, "cfgOdd")
+	}
+	n := rapid.IntRange(1, 4).Draw(t, "inputs")
+	for i := 0; i < n; i++ {
+		switch rapid.IntRange(0, 4).Draw(t, "source") {
+		case 0:
+			c := genC09Mutate(t)
+			q.Inputs, q.Kinds = append(q.Inputs, c.Input), append(q.Kinds, "mutate")
+		case 1:
+			c := genC09Tree(t)
+			q.Inputs, q.Kinds = append(q.Inputs, c.Input), append(q.Kinds, "tree")
+		case 2:
+			c := genC09Strings(t)
+			q.Inputs, q.Kinds = append(q.Inputs, c.Input), append(q.Kinds, "strings")
+		default: // (mostly) well-formed EncryptedAssertion in an unsigned or signed Response
+			c := genC09Cipher(t)
+			q.Inputs, q.Kinds = append(q.Inputs, c.Input), append(q.Kinds, "cipher:"+c.Shape)
+		}
+	}
+	return q
+}
+
+func checkC09Seq(q C09Seq) h.Outcome {
+	o := h.Outcome{NonTrivial: len(q.Inputs) > 1 || q.Cfg >= 8, Classes: []string{"gen:seq", fmt.Sprintf("cfg:%d", q.Cfg%c09Variants), fmt.Sprintf("inputs:%d", len(q.Inputs))}}
+	sp := c09Build(q.Cfg)
+	for round := 0; round < 2; round++ { // twice: the second pass meets whatever the first left behind
+		for i, in := range q.Inputs {
+			v, stages := totalityWith(func() *saml2.SAMLServiceProvider { return sp }, in)
+			if round == 0 {
+				o.Classes = append(o.Classes, "src:"+q.Kinds[i])
+				o.Classes = append(o.Classes, stages...)
+			}
+			if v != nil {
+				v.Sig = "reused-sp/" + v.Sig
+				v.Detail = fmt.Sprintf("input %d (pass %d) on a long-lived service provider (configuration %d): %s", i+1, round+1, q.Cfg, v.Detail)
+				o.Violation = v
+				return o
+			}
+		}
+	}
+	o.Classes = dedup(o.Classes)
+	return o
+}
+
+func TestC09_PSeq(t *testing.T) { h.RunProp(t, "C09.seq", genC09Seq, checkC09Seq) }
+
 func TestC09_PStrings(t *testing.T) { h.RunProp(t, "C09", genC09Strings, checkC09) }
 func TestC09_PMutate(t *testing.T)  { h.RunProp(t, "C09.mutate", genC09Mutate, checkC09) }
 func TestC09_PCipher(t *testing.T)  { h.RunProp(t, "C09.cipher", genC09Cipher, checkC09Cipher) }
@@ -594,6 +698,7 @@ func TestC09_Replay(t *testing.T) {
 	h.RunReplay(t, "C09.cipher", checkC09Cipher)
 	h.RunReplay(t, "C09.tree", checkC09)
 	h.RunReplay(t, "C09.shape", checkC09Shape)
+	h.RunReplay(t, "C09.seq", checkC09Seq)
 }
 
 // TestC09_GridOffsets: exhaustive truncation at EVERY offset (and a bit flip at every offset in the
